@@ -1289,7 +1289,7 @@ def stalled_ping_timeout(run, an):
                 s0 -= 1
             if not any(e == f"wp {t}" for e in run.steps[s0].events) and s0 == first:
                 continue
-            ts = times[s0 - 1] if run.steps[s0].op == "tick" and s0 > 0 else times[s0]
+            ts = times[s0]          # `times` already includes a tick performed in step s0 itself
             for st in run.steps[p["when"][0]:]:
                 if st.net_after != t:
                     break
